@@ -166,6 +166,33 @@ def main():
             got = "AMBIGUOUS" if str(e).startswith("Ambiguous") else "NOMETHOD"
         if got != want:
             fail("mixed_type_and_ordinary_arguments", call=[repr(t), repr(x)], got=got, expected=want)
+    # a keyword-only type[...] parameter supplied at a rewritten recurse / call_next site
+    from ovld import call_next, recurse
+
+    ovk = Ovld(name="kwt")
+
+    def k_list(xs: list, *, to: type[object] = object):
+        return [recurse(x, to=to) for x in xs]
+
+    def k_int_to_str(x: int, *, to: type[str]):
+        return "str:" + str(x)
+
+    def k_int_to_int(x: int, *, to: type[int]):
+        return ["int", call_next(x, to=object)]
+
+    def k_obj(x: object, *, to: type[object] = object):
+        return ("obj", x)
+
+    for g in (k_list, k_int_to_str, k_int_to_int, k_obj):
+        ovk.register(g)
+    for call, want in ((lambda: ovk([1, "a"], to=str), ["str:1", ("obj", "a")]), (lambda: ovk([2], to=int), [["int", ("obj", 2)]]), (lambda: ovk(3, to=bool), ["int", ("obj", 3)])):
+        n += 1
+        try:
+            got = call()
+        except TypeError as e:
+            got = "AMBIGUOUS" if str(e).startswith("Ambiguous") else "NOMETHOD" if str(e).startswith("No method") else f"TypeError:{str(e)[:40]}"
+        if got != want:
+            fail("keyword_only_class_argument_through_recurse_and_call_next", got=repr(got)[:100], expected=repr(want))
     print(json.dumps(dict(evaluations=n, failing=list(failing.values()))))
     return 1 if failing else 0
 
